@@ -853,7 +853,7 @@ func TestC18(t *testing.T) {
 	seed, _ := strconv.Atoi(os.Getenv("VERIF_SEED"))
 	stride := 1
 	if !hx.Thorough() {
-		stride = 4
+		stride = 6
 	}
 	if s, err := strconv.Atoi(os.Getenv("VERIF_C18_STRIDE")); err == nil && s > 0 {
 		stride = s
